@@ -325,10 +325,10 @@ fn run_read_only_direct(seed: u64, ev: &mut Evidence) {
 pub fn run(which: Which, args: &Args) -> i32 {
     let started = Instant::now();
     let sessions: u64 = match which {
-        Which::C01 => args.tier.pick(6_000, 400_000),
-        Which::C02 => args.tier.pick(6_000, 400_000),
-        Which::C08 => args.tier.pick(6_000, 400_000),
-        Which::C17 => args.tier.pick(6_000, 300_000),
+        Which::C01 => args.tier.pick(150_000, 6_000_000),
+        Which::C02 => args.tier.pick(150_000, 6_000_000),
+        Which::C08 => args.tier.pick(150_000, 6_000_000),
+        Which::C17 => args.tier.pick(150_000, 6_000_000),
     };
     let seed = args.seed;
 
@@ -387,8 +387,8 @@ pub fn run(which: Which, args: &Args) -> i32 {
         ],
         exhaustive,
         floors: vec![
-            ("requests".into(), args.tier.pick(20_000, 1_000_000)),
-            ("replies_compared".into(), args.tier.pick(5_000, 300_000)),
+            ("requests".into(), args.tier.pick(1_000_000, 30_000_000)),
+            ("replies_compared".into(), args.tier.pick(300_000, 10_000_000)),
         ],
         min_classes: 30,
     };
